@@ -148,6 +148,14 @@ def step (st : St) (line : String) : St × String :=
   | ["keys", w, s] => (st, s!"{shortlexKey (nat! w) (nat! s)} {longlexKey (nat! w) (nat! s)} {reinv (nat! w) (nat! s)} {card (nat! w) (nat! s)}")
   | ["members", w, s] => (st, showList (membersW (nat! w) (nat! s)))
   | ["ofmembers", l] => (st, toString (ofMembers (parseNatList l)))
+  | ["sortsl", w, l] => (st, showList (sortStable (shortlexKey (nat! w)) (parseNatList l)))
+  | ["sortll", w, l] => (st, showList (sortStable (longlexKey (nat! w)) (parseNatList l)))
+  | ["mincovers", w, e, l] =>
+    let e := nat! e
+    let above := (parseNatList l).filter fun d => d != e && (e &&& d == e)
+    let mins := above.filter fun d => !(above.any fun x => x != d && (x &&& d == x))
+    (st, showList (sortStable (shortlexKey (nat! w)) mins.eraseDups))
+  | ["labels", e] => (st, s!"{showList (objectLabels st.K (nat! e))} {showList (propertyLabels st.K (nat! e))}")
   | ["tz", b] => (st, toString (tz (nat! b)))
   -- Definition world
   | ["dnew", s, os, ps, bs] =>
